@@ -974,7 +974,14 @@ func isDefaultConst(p *Prim) bool {
 	case *ast.Ident:
 		return v.Name == "nil"
 	case *ast.CompositeLit:
-		return len(v.Elts) == 0
+		// an empty literal, or a literal of zeros ([]byte{0, 0, 0, 0} where an address belongs)
+		for _, el := range v.Elts {
+			bl, ok := ast.Unparen(el).(*ast.BasicLit)
+			if !ok || strings.Trim(bl.Value, "0xX._") != "" {
+				return false
+			}
+		}
+		return true
 	}
 	return false
 }
